@@ -40,6 +40,29 @@ pub mod vec_model {
                 final(self)@ == (if i as int == old(self)@.len() - 1 { old(self)@.drop_last() } else { old(self)@.drop_last().update(i as int, old(self)@.last()) })
         { unimplemented!() }
     }
+    impl<T> Vec<T> {
+        /// std: "If the slice is not sorted by the key, the returned result is unspecified and
+        /// meaningless" -- so the result means something only under `sorted`: Ok(i) is an index whose
+        /// key is the one looked for, Err(_) says no element has it
+        #[verifier::external_body]
+        pub fn binary_search_by_key<'a, F: FnMut(&'a T) -> u64>(&'a self, b: &u64, f: F) -> (r: ::std::result::Result<usize, usize>)
+            requires forall|x: &T| call_requires(f, (x,)),
+            ensures
+                (forall|i: int, j: int, ki: u64, kj: u64| 0 <= i < j < self@.len() && call_ensures(f, (&self@[i],), ki) && call_ensures(f, (&self@[j],), kj) ==> ki <= kj)
+                ==> match r {
+                    Ok(i) => (i as int) < self@.len() && call_ensures(f, (&self@[i as int],), *b),
+                    Err(_) => forall|j: int| 0 <= j < self@.len() ==> !call_ensures(f, (&(#[trigger] self@[j]),), *b),
+                },
+        { unimplemented!() }
+    }
+    impl<T> vstd::std_specs::core::IndexSpecImpl<usize> for Vec<T> {
+        open spec fn index_req(&self, i: &usize) -> bool { *i < self@.len() }     // std: panics otherwise
+    }
+    impl<T> core::ops::Index<usize> for Vec<T> {
+        type Output = T;
+        #[verifier::external_body]
+        fn index(&self, i: usize) -> (o: &T) ensures *o == self@[i as int] { unimplemented!() }
+    }
     impl<'a, T> VIter<'a, T> {
         #[verifier::external_body]
         pub fn find<P: FnMut(&&'a T) -> bool>(&mut self, pred: P) -> (r: Option<&'a T>)
